@@ -1,7 +1,11 @@
 import Model.C19
 import Proofs.C19
 import Proofs.C19.Assoc
-/-! The invariant tying every layer of a wrapper stack to the judge's map-with-expiry (C19). -/
+/-! The invariant tying every layer of a wrapper stack to the judge's map-with-expiry (C19).
+
+The invariant is exact: the backend holds precisely the judge's present entries (value and TTL
+deadline), and every copy in the in-memory layer is the judge's entry with the judge's in-memory
+deadline. -/
 namespace PfC19
 open Common C19
 
@@ -21,20 +25,43 @@ def encEnt (cd : Codec) : Bytes × Int × Int → Bytes × Int × Int := fun x =
 /-- the view of the layers below a compression layer: values are encoded. -/
 def tSnap (cd : Codec) (f : View) : View := fun k => (f k).map (encEnt cd)
 
-/-- every live entry of every layer is the judge's entry for its key (transported through the
-layers above) and does not outlive the judge's deadline on that layer's clock. -/
-def Inv (cd : Codec) (wall : Int) (be : Backend) : List Layer → View → Prop
-  | [], f => ∀ k it, aGet k be.items = some it → be.now < it.exp → ∃ a b, f k = some (it.data, a, b) ∧ it.exp ≤ a
-  | .ver n :: ls, f => Inv cd wall be ls (tVer n f)
-  | .snap :: ls, f => Inv cd wall be ls (tSnap cd f)
+/-- the backend holds exactly the judge's present entries (transported through the layers above);
+every in-memory copy is the judge's entry with the judge's in-memory deadline. -/
+def Inv (cd : Codec) (be : Backend) : List Layer → View → Prop
+  | [], f =>
+    (∀ k it, aGet k be.items = some it → ∃ b, f k = some (it.data, it.exp, b)) ∧
+    (∀ k v a b, f k = some (v, a, b) → aGet k be.items = some ⟨v, a⟩)
+  | .ver n :: ls, f => Inv cd be ls (tVer n f)
+  | .snap :: ls, f => Inv cd be ls (tSnap cd f)
   | .lru _ _ e :: ls, f =>
-    (∀ k it, aGet k e = some it → wall < it.exp → ∃ a b, f k = some (it.data, a, b) ∧ it.exp ≤ b) ∧
-    Inv cd wall be ls f ∧ noLru ls
+    (∀ k it, aGet k e = some it → ∃ a, f k = some (it.data, a, it.exp)) ∧ Inv cd be ls f ∧ noLru ls
 
-/-- `f'` knows everything `f` knows, with in-memory deadlines that are no earlier. -/
-def le (f f' : View) : Prop := ∀ k v a b, f k = some (v, a, b) → ∃ b', f' k = some (v, a, b') ∧ b ≤ b'
+/-- value and TTL deadline, without the in-memory deadline. -/
+def core (f : View) (k : Key) : Option (Bytes × Int) := (f k).map fun x => (x.1, x.2.1)
 
-theorem le_refl (f : View) : le f f := fun _ _ _ b h => ⟨b, h, Int.le_refl _⟩
+/-- `f` and `f'` know the same entries with the same TTL deadlines (in-memory deadlines may differ). -/
+def sim (f f' : View) : Prop := ∀ k, core f k = core f' k
+
+theorem sim_refl (f : View) : sim f f := fun _ => rfl
+
+theorem core_some {f : View} {k : Key} {v : Bytes} {a : Int} : core f k = some (v, a) ↔ ∃ b, f k = some (v, a, b) := by
+  unfold core
+  cases hf : f k with
+  | none => simp
+  | some x =>
+    obtain ⟨v', a', b'⟩ := x
+    simp only [Option.map_some, Option.some.injEq, Prod.mk.injEq]
+    constructor
+    · rintro ⟨rfl, rfl⟩; exact ⟨b', rfl, rfl, rfl⟩
+    · rintro ⟨b, rfl, rfl, _⟩; exact ⟨rfl, rfl⟩
+
+theorem sim_some {f f' : View} (h : sim f f') {k : Key} {v : Bytes} {a b : Int} (hf : f k = some (v, a, b)) :
+    ∃ b', f' k = some (v, a, b') := by
+  have : core f k = some (v, a) := core_some.mpr ⟨b, hf⟩
+  rw [h k] at this
+  exact core_some.mp this
+
+theorem sim_symm {f f' : View} (h : sim f f') : sim f' f := fun k => (h k).symm
 
 theorem tVer_some {n : Nat} {f : View} {k' : Key} {x : Bytes × Int × Int} (h : tVer n f k' = some x) :
     ∃ k, k' = addVersion n k ∧ f k = some x := by
@@ -46,11 +73,12 @@ theorem tVer_some {n : Nat} {f : View} {k' : Key} {x : Bytes × Int × Int} (h :
 theorem tVer_add (n : Nat) (f : View) (k : Key) : tVer n f (addVersion n k) = f k := by
   simp [tVer, addVersion, trimPrefix_append]
 
-theorem le_tVer {f f' : View} (n : Nat) (h : le f f') : le (tVer n f) (tVer n f') := by
-  intro k v a b hk
-  obtain ⟨k0, rfl, hf⟩ := tVer_some hk
-  obtain ⟨b', h1, h2⟩ := h k0 v a b hf
-  exact ⟨b', by rw [tVer_add]; exact h1, h2⟩
+theorem sim_tVer {f f' : View} (n : Nat) (h : sim f f') : sim (tVer n f) (tVer n f') := by
+  intro k'
+  unfold core tVer
+  cases trimPrefix (versionPrefix n) k' with
+  | none => rfl
+  | some k => exact h k
 
 theorem tSnap_some {cd : Codec} {f : View} {k : Key} {ev : Bytes} {a b : Int} (h : tSnap cd f k = some (ev, a, b)) :
     ∃ v, f k = some (v, a, b) ∧ cd.enc v = ev := by
@@ -68,40 +96,49 @@ theorem tSnap_of {cd : Codec} {f : View} {k : Key} {v : Bytes} {a b : Int} (h : 
     tSnap cd f k = some (cd.enc v, a, b) := by
   simp [tSnap, h, encEnt]
 
-theorem le_tSnap {f f' : View} (cd : Codec) (h : le f f') : le (tSnap cd f) (tSnap cd f') := by
-  intro k ev a b hk
-  obtain ⟨v, hf, rfl⟩ := tSnap_some hk
-  obtain ⟨b', h1, h2⟩ := h k v a b hf
-  exact ⟨b', tSnap_of h1, h2⟩
+theorem sim_tSnap {f f' : View} (cd : Codec) (h : sim f f') : sim (tSnap cd f) (tSnap cd f') := by
+  intro k
+  have hk := h k
+  unfold core at hk
+  unfold core tSnap
+  cases hf : f k with
+  | none =>
+    cases hf' : f' k with
+    | none => rfl
+    | some y => rw [hf, hf'] at hk; simp at hk
+  | some x =>
+    cases hf' : f' k with
+    | none => rw [hf, hf'] at hk; simp at hk
+    | some y =>
+      rw [hf, hf'] at hk
+      simp only [Option.map_some, Option.some.injEq, Prod.mk.injEq] at hk
+      simp only [Option.map_some, encEnt, hk.1, hk.2]
 
-theorem Inv_mono (cd : Codec) (wall : Int) (be : Backend) : ∀ (ls : List Layer) (f f' : View),
-    le f f' → Inv cd wall be ls f → Inv cd wall be ls f'
-  | [], f, f', hle, h => by
-    intro k it hg hl
-    obtain ⟨a, b, h1, h2⟩ := h k it hg hl
-    obtain ⟨b', h3, _⟩ := hle k _ a b h1
-    exact ⟨a, b', h3, h2⟩
-  | .ver n :: ls, f, f', hle, h => Inv_mono cd wall be ls _ _ (le_tVer n hle) h
-  | .snap :: ls, f, f', hle, h => Inv_mono cd wall be ls _ _ (le_tSnap cd hle) h
-  | .lru _ _ e :: ls, f, f', hle, h => by
-    refine ⟨?_, Inv_mono cd wall be ls _ _ hle h.2.1, h.2.2⟩
-    intro k it hg hl
-    obtain ⟨a, b, h1, h2⟩ := h.1 k it hg hl
-    obtain ⟨b', h3, h4⟩ := hle k _ a b h1
-    exact ⟨a, b', h3, Int.le_trans h2 h4⟩
+/-- below the in-memory layer only values and TTL deadlines matter. -/
+theorem Inv_sim (cd : Codec) (be : Backend) : ∀ (ls : List Layer) (f f' : View),
+    noLru ls → sim f f' → Inv cd be ls f → Inv cd be ls f'
+  | [], f, f', _, hs, h => by
+    refine ⟨?_, ?_⟩
+    · intro k it hg
+      obtain ⟨b, hf⟩ := h.1 k it hg
+      exact sim_some hs hf
+    · intro k v a b hf'
+      obtain ⟨b0, hf⟩ := sim_some (sim_symm hs) hf'
+      exact h.2 k v a b0 hf
+  | .ver n :: ls, f, f', hn, hs, h => Inv_sim cd be ls _ _ hn (sim_tVer n hs) h
+  | .snap :: ls, f, f', hn, hs, h => Inv_sim cd be ls _ _ hn (sim_tSnap cd hs) h
+  | .lru _ _ _ :: _, _, _, hn, _, _ => absurd hn (by simp [noLru])
 
-/-- clocks only move forward: fewer entries are live, the invariant survives. -/
-theorem Inv_time (cd : Codec) (wall wall' : Int) (be be' : Backend) (hi : be'.items = be.items)
-    (hn : be.now ≤ be'.now) (hw : wall ≤ wall') : ∀ (ls : List Layer) (f : View),
-    Inv cd wall be ls f → Inv cd wall' be' ls f
+/-- the invariant does not mention the clocks. -/
+theorem Inv_items (cd : Codec) (be be' : Backend) (hi : be'.items = be.items) : ∀ (ls : List Layer) (f : View),
+    Inv cd be ls f → Inv cd be' ls f
   | [], f, h => by
-    intro k it hg hl
-    rw [hi] at hg
-    exact h k it hg (by omega)
-  | .ver n :: ls, f, h => Inv_time cd wall wall' be be' hi hn hw ls _ h
-  | .snap :: ls, f, h => Inv_time cd wall wall' be be' hi hn hw ls _ h
-  | .lru _ _ e :: ls, f, h =>
-    ⟨fun k it hg hl => h.1 k it hg (by omega), Inv_time cd wall wall' be be' hi hn hw ls _ h.2.1, h.2.2⟩
+    refine ⟨?_, ?_⟩
+    · intro k it hg; rw [hi] at hg; exact h.1 k it hg
+    · intro k v a b hf; rw [hi]; exact h.2 k v a b hf
+  | .ver n :: ls, f, h => Inv_items cd be be' hi ls _ h
+  | .snap :: ls, f, h => Inv_items cd be be' hi ls _ h
+  | .lru _ _ e :: ls, f, h => ⟨h.1, Inv_items cd be be' hi ls _ h.2.1, h.2.2⟩
 
 /-! ### same shape -/
 
@@ -131,11 +168,20 @@ theorem firstLru_kind : ∀ ls, firstLru (ls.map kind) = firstLru ls
   | .ver _ :: ls => firstLru_kind ls
   | .snap :: ls => firstLru_kind ls
 
+theorem upVers_kind : ∀ ls, upVers (ls.map kind) = upVers ls
+  | [] => rfl
+  | .lru .. :: _ => rfl
+  | .ver n :: ls => by simp only [List.map_cons, kind, upVers, upVers_kind ls]
+  | .snap :: ls => by simp only [List.map_cons, kind, upVers, upVers_kind ls]
+
 theorem same_noLru {ls ls' : List Layer} (hs : same ls ls') (h : noLru ls) : noLru ls' := by
   rw [← noLru_kind] at h ⊢; rw [← hs]; exact h
 
 theorem same_firstLru {ls ls' : List Layer} (hs : same ls ls') : firstLru ls' = firstLru ls := by
   rw [← firstLru_kind ls', ← firstLru_kind ls, hs]
+
+theorem same_upVers {ls ls' : List Layer} (hs : same ls ls') : upVers ls' = upVers ls := by
+  rw [← upVers_kind ls', ← upVers_kind ls, hs]
 
 theorem noLru_firstLru : ∀ {ls}, noLru ls → firstLru ls = none
   | [], _ => rfl
@@ -148,5 +194,43 @@ theorem firstLru_none_noLru : ∀ {ls}, firstLru ls = none → noLru ls
   | .lru .. :: _, h => by simp [firstLru] at h
   | .ver _ :: ls, h => firstLru_none_noLru (ls := ls) (by simpa [firstLru] using h)
   | .snap :: ls, h => firstLru_none_noLru (ls := ls) (by simpa [firstLru] using h)
+
+/-! ### what the in-memory layer holds -/
+
+theorem holds_noLru : ∀ {ls} (k : Key), noLru ls → holds ls k = false
+  | [], _, _ => rfl
+  | .lru .. :: _, _, h => absurd h (by simp [noLru])
+  | .ver n :: ls, k, h => holds_noLru (ls := ls) (addVersion n k) h
+  | .snap :: ls, k, h => holds_noLru (ls := ls) k h
+
+/-- `holds` is what the judge computes from the layer's key list and the version prefixes above it. -/
+theorem holds_eq : ∀ (ls : List Layer) (k : Key), holds ls k = (heldKeys ls).contains (lruKey (upVers ls) k)
+  | [], _ => rfl
+  | .lru _ _ e :: _, k => rfl
+  | .ver n :: ls, k => by
+    simp only [holds, heldKeys, upVers, lruKey, List.foldl_cons]
+    exact holds_eq ls (addVersion n k)
+  | .snap :: ls, k => by
+    simp only [holds, heldKeys, upVers]
+    exact holds_eq ls k
+
+theorem served_eq (ls : List Layer) (W dW : Int) (k : Key) :
+    servedLocally (cfgOf ls) (heldKeys ls) W dW k = (holds ls k && decide (W < dW)) := by
+  unfold servedLocally cfgOf
+  cases hf : firstLru ls with
+  | none => simp [holds_noLru k (firstLru_none_noLru hf)]
+  | some p => simp [holds_eq]
+
+theorem mem_keys_iff {k : Key} {e : KV} : (e.map (·.1)).contains k = true ↔ ∃ it, aGet k e = some it := by
+  induction e with
+  | nil => simp [aGet]
+  | cons x e ih =>
+    obtain ⟨k2, v2⟩ := x
+    simp only [List.map_cons, List.contains_cons, Bool.or_eq_true, beq_iff_eq, aGet]
+    by_cases hk : k2 = k
+    · subst hk; simp
+    · have : ¬ k = k2 := fun h => hk h.symm
+      simp only [this, false_or, if_neg hk]
+      exact ih
 
 end PfC19
